@@ -199,9 +199,13 @@ def m_step(machine: "IVectorMachine", stats: IVectorStats) -> "IVectorMachine":
         fnorm_sigma_wij_tt = np.diagonal(
             stats.fnorm_sigma_wij @ X, axis1=-2, axis2=-1
         )
-        machine.sigma = (stats.snormij - fnorm_sigma_wij_tt) / stats.nij[
-            :, None
-        ]
+        nij = stats.nij[:, None]
+        new_sigma = (stats.snormij - fnorm_sigma_wij_tt) / np.where(
+            nij == 0, 1, nij
+        )
+        # A component that received no responsibility keeps its covariance
+        # (instead of 0/0)
+        machine.sigma = np.where(nij == 0, machine.sigma, new_sigma)
         machine.sigma[
             machine.sigma < machine.variance_floor
         ] = machine.variance_floor
